@@ -50,6 +50,7 @@ type vpC15Conn struct {
 	Ln        int
 	Phase     string // idle | gate | pipe | done | late | wake | fresh
 	Pre       int    // fast requests answered before the phase request
+	PreTmo    bool   // the warm-up requests are answered through ctx.TimeoutError (the server then continues on a fresh RequestCtx)
 	Release   int    // gate/pipe: 0 answered before Shutdown, 1 opened together with the Shutdown call, 2 after stop flag seen, 3 after stop flag + DelayMs
 	DelayMs   int
 	Followers int  // pipe: requests queued behind the gated one
@@ -75,7 +76,7 @@ func (sc vpC15Scenario) String() string {
 	fmt.Fprintf(&b, "ln=%v cos=%v rmu=%v idle=%v read=%v ctx=%v gatefirst=%v pad=%d", sc.LnKinds, sc.CloseOnShutdown, sc.ReduceMem,
 		sc.IdleTimeout, sc.ReadTimeout, sc.WithCtx, sc.GateFirst, sc.Pad)
 	for j, c := range sc.Conns {
-		fmt.Fprintf(&b, " | c%d ln%d %s pre=%d", j, c.Ln, c.Phase, c.Pre)
+		fmt.Fprintf(&b, " | c%d ln%d %s pre=%d pretmo=%v", j, c.Ln, c.Phase, c.Pre, c.PreTmo)
 		switch c.Phase {
 		case "gate":
 			fmt.Fprintf(&b, " rel=%d d=%d", c.Release, c.DelayMs)
@@ -121,6 +122,7 @@ func vpC15Gen(t *rapid.T) vpC15Scenario {
 			}
 		}
 		c.Phase = rapid.SampledFrom(phases).Draw(t, "phase")
+		c.PreTmo = rapid.IntRange(0, 3).Draw(t, "pretmo") == 0
 		if c.Phase == "wake" && vpKnownOpen(vpC15KeyWake) && os.Getenv("VP_C15_FORCE_WAKE") == "" { // env: harness debugging only
 			// known finding: a request arriving on an idle keep-alive connection while Shutdown closes idle
 			// connections can have its handler run and its response dropped. Keep the connection idle.
@@ -286,7 +288,13 @@ func (r *vpC15Run) handler(ctx *RequestCtx) {
 			via = "fallback"
 		}
 	}
+	if kind == "tmo" {
+		via = "tmo"
+	}
 	ctx.SetBodyString("id=" + id + ";via=" + via + ";" + strings.Repeat("p", r.sc.Pad))
+	if kind == "tmo" {
+		ctx.TimeoutErrorWithCode("id="+id+";via="+via+";"+strings.Repeat("p", r.sc.Pad), 200)
+	}
 	saw := ctx.s.stop.Load() == 1
 	r.log.mu.Lock()
 	r.log.ended[id] = true
@@ -393,7 +401,11 @@ func vpC15RunScenario(t *rapid.T, sc vpC15Scenario) {
 	inflight, during, idle, fresh := 0, 0, 0, false
 	for j, c := range sc.Conns {
 		for i := 0; i < c.Pre; i++ {
-			r.reqs[j] = append(r.reqs[j], vpC15Req{fmt.Sprintf("c%dr%d", j, i), "fast"})
+			k := "fast"
+			if c.PreTmo {
+				k = "tmo"
+			}
+			r.reqs[j] = append(r.reqs[j], vpC15Req{fmt.Sprintf("c%dr%d", j, i), k})
 		}
 		id := fmt.Sprintf("c%dr%d", j, c.Pre)
 		switch c.Phase {
